@@ -80,7 +80,7 @@ View == <<pool, blocks, head, gapped>>
 
 (* simulation mode: print every behaviour of HistLen operations *)
 Emit == IF Len(hist) = HistLen + 1 THEN PrintT(<<"MBT", ToJson(hist)>>) ELSE TRUE
-(* TODO-KNOWN-FINDING C41-gap-after-reorg: witnesses of the strict property failing on the   *)
+(* KNOWN-FINDING (open, known_findings.json) C41-gap-after-reorg: witnesses of the strict property failing on the   *)
 (* model (BFS, so the first printed ones are the shortest); replayed on the real pool         *)
 WitnessGap == PendingGaplessStrict \/ PrintT(<<"GAP", ToJson(hist)>>)
 NoWitnessYet == PendingGaplessStrict
